@@ -443,6 +443,8 @@ pub fn gen(tier: &str, seed: u64, outdir: &str) {
         let st = Tm::L(solves.iter().map(|(a, bb, x)| Tm::Tup(vec![fl(a), fl(bb), fl(x)])).collect());
         let it_ = Tm::L(invs.iter().map(|(a, x)| Tm::Tup(vec![fl(a), fl(x)])).collect());
         cs.push(app("CLm", vec![etm(&e), data_tm(&d), Tm::F(hp.0), Tm::F(hp.1), Tm::F(hp.2), fl(&x0), runs_tm(&rs), st, it_, libm_table(&t)]), tag, changing(&rs));
+        // end to end: no table of inner solves; the Coq side computes damped.solve / jtj.inv with C01's executable models
+        cs.push(app("CLmE", vec![etm(&e), data_tm(&d), Tm::F(hp.0), Tm::F(hp.1), Tm::F(hp.2), fl(&x0), runs_tm(&rs), libm_table(&t)]), &format!("e2e-{}", tag), changing(&rs));
     }
     // malformed LM calls: wrong number of data slices, unequal lengths, no points, no parameters
     for it in 0..(if thorough { 40 } else { 12 }) {
@@ -455,10 +457,11 @@ pub fn gen(tier: &str, seed: u64, outdir: &str) {
         let st = Tm::L(solves.iter().map(|(a, bb, x)| Tm::Tup(vec![fl(a), fl(bb), fl(x)])).collect());
         let it_ = Tm::L(invs.iter().map(|(a, x)| Tm::Tup(vec![fl(a), fl(x)])).collect());
         cs.push(app("CLm", vec![etm(&e), data_tm(&d), Tm::F(hp.0), Tm::F(hp.1), Tm::F(hp.2), fl(&x0), runs_tm(&rs), st, it_, libm_table(&Default::default())]), "lm/malformed", true);
+        cs.push(app("CLmE", vec![etm(&e), data_tm(&d), Tm::F(hp.0), Tm::F(hp.1), Tm::F(hp.2), fl(&x0), runs_tm(&rs), libm_table(&Default::default())]), "e2e-lm/malformed", true);
     }
     drop(_q);
     cs.write(outdir, if thorough { 40 } else { 25 },
-             "objective programs as ASTs over reverse::Var (random convex / non-convex quadratics in 1..8 dimensions, Rosenbrock, least-squares losses with exp/sin/powi/division nodes, arbitrary random ASTs over every node kind with let-sharing, special values in the parameters for the gradient cases); Adam and SGD (plain / momentum / Nesterov) compared for every step budget k of a dense prefix (all k up to 200 resp. 300 for six problems) plus sampled k up to 200 (quick) / 2000 (thorough); LM on linear, quadratic, exponential, logistic, rational and constant curve fits with 5..24 (60) points and poor starts, inner LU solves recorded and keyed bitwise; malformed streams (index out of range, no parameters, non-positive betas, wrong data shapes); non-trivial = at least three distinct parameter vectors along the step budgets (two iterations with a changing state), a finite non-zero gradient entry (gradient cases), or a rejected call; distinct by hash of the case term");
+             "objective programs as ASTs over reverse::Var (random convex / non-convex quadratics in 1..8 dimensions, Rosenbrock, least-squares losses with exp/sin/powi/division nodes, arbitrary random ASTs over every node kind with let-sharing, special values in the parameters for the gradient cases); Adam and SGD (plain / momentum / Nesterov) compared for every step budget k of a dense prefix (all k up to 200 resp. 300 for six problems) plus sampled k up to 200 (quick) / 2000 (thorough); LM on linear, quadratic, exponential, logistic, rational and constant curve fits with 5..24 (60) points and poor starts, inner LU solves recorded and keyed bitwise, and every LM case ALSO end to end (tags e2e-*: no table of inner solves, damped.solve / jtj.inv computed inside Coq by C01's executable models of Matrix::solve / Matrix::inv); malformed streams (index out of range, no parameters, non-positive betas, wrong data shapes); non-trivial = at least three distinct parameter vectors along the step budgets (two iterations with a changing state), a finite non-zero gradient entry (gradient cases), or a rejected call; distinct by hash of the case term");
 }
 
 // ---------------------------------------------------------------------------------------------
